@@ -3,35 +3,40 @@ HARNESS = "harness/c17.cpp"
 DRIVER_MODE = "c17"
 LEAN_MODULES = ["AdaptaVerif.Props.C17"]
 LEVEL = "proof"
-LEVEL_TEXT = ("Every matrix returned by the real floyd_warshall / johnsons / dijkstra and by "
-              "ConstrainedFDLayout::readLinearD/readLinearG is decided, per run, by a Lean checker that is proved "
-              "sound for all finite graphs (checkApsp_sound: accepted => exact minimum over all walks, sentinel iff "
-              "no walk, symmetric, zero diagonal). The Lean model of floyd_warshall (in-place triple loop as coded) is "
-              "proved exact for all valid graphs without parallel edges/self-loops (fw_correct_simple) and, with the "
-              "proposed repaired initialisation, for all valid multigraphs (fwFixed_correct); the defect of the "
-              "as-coded initialisation on parallel edges / self-loops is proved on concrete witnesses and replayed "
-              "on the C++.")
-LEVEL_NOTE = ("Theorems are about the Lean models; the tie to the C++ is the per-run correspondence (sampled) plus "
-              "the sound checker on the real outputs. Doubles are imported exactly (hex floats); generated weights are "
-              "dyadic (k/8) so the C++ sums are exact. The pairing heap is not modelled as a tree: its real "
-              "PairingHeap<T> is compared on random operation sequences against a multiset.")
-TECHNIQUE = "Lean 4 theorems (checker soundness, Floyd-Warshall invariant proof, witnesses by kernel evaluation) + verified certificate check on real outputs + model correspondence"
-RULE = ("fixed boundary cases, then random graphs cycled over 13 classes (sparse, dense, disconnected, tree, zero-weight, "
+LEVEL_TEXT = ("Lean models of floyd_warshall (in-place triple loop as coded in /repo now), dijkstra/johnsons (over an "
+              "abstract minimum-selection) and of the layout's D matrix are proved exact for ALL valid finite "
+              "multigraphs (fw_correct, dijkstra_correct, johnsons_correct, layoutD_correct); the functional model of "
+              "PairingHeap<T> is proved to refine a multiset over all legal operation sequences. Independently, every "
+              "matrix returned by the real C++ functions and by readLinearD/readLinearG is decided per run by a Lean "
+              "checker proved sound AND complete for all finite graphs (checkApsp_iff: accepted <=> exact minimum "
+              "over all walks, sentinel iff no walk). The defect of the pre-fix initialisation (parallel edges keep the "
+              "last weight, self-loops overwrite the diagonal) is proved on concrete witnesses; it was replayed on the "
+              "C++ and repaired by a fix: commit in /repo.")
+LEVEL_NOTE = ("Theorems are about the Lean models; the tie to the C++ is the per-run correspondence (sampled, exact "
+              "equality of all matrices, exact extraction order incl. ties for the heap) plus the verified checker on "
+              "the real outputs. Doubles are imported exactly (hex floats); generated weights are dyadic (k/8) so the "
+              "C++ sums are exact; readLinearD is compared within 1e-9 relative. Dijkstra is proved over any queue that "
+              "hands out a minimum (SelSpec); that the pairing-heap model provides one is pairingheap_findMin_is_minimum, "
+              "the glue between the two (heap state vs. selector function) is not formalised.")
+TECHNIQUE = "Lean 4 theorems (invariant proofs for Floyd-Warshall and Dijkstra, checker soundness+completeness, heap refinement, witnesses by kernel evaluation) + verified certificate check on real outputs + model correspondence"
+RULE = ("8 fixed boundary cases, then random graphs cycled over 13 classes (sparse, dense, disconnected, tree, zero-weight, "
         "fractional k/8, unit/empty weights, self-loop, parallel-edges, nonpositive layout lengths, tiny, path, "
-        "zero-weight tree+chords), n<=12 quick / n<=40 plus 26 graphs with 60<=n<=300 thorough, then PairingHeap "
-        "operation sequences; a graph case is non-trivial if it has >=2 vertices and >=1 edge, a heap case if it "
-        "extracts >=2 items")
+        "zero-weight tree+chords): quick 1300 graphs n<=12 + 13 graphs 24<=n<=48; thorough 5200 graphs n<=16/40 + 13 + 13 "
+        "with 60<=n<=120 + 26 with 150<=n<=300; then PairingHeap operation sequences (150 / 600). A graph case is "
+        "non-trivial if it has >=2 vertices and >=1 edge, a heap case if it extracts >=2 items")
 TRUSTED_BASE = ["Lean 4.33 kernel", "axioms: propext, Classical.choice, Quot.sound",
                 "Lean compiler for the driver (checker executed compiled)",
                 "harness + hex-float import; DBL_MAX recognised as the sentinel",
                 "IEEE exactness of + and * on small dyadic values; DBL_MAX + x >= DBL_MAX for x >= 0"]
 ASSUMPTIONS = ["weights >= 0 (the property's domain); end points < n",
-               "model comparison of floyd_warshall only for n <= 64 (the checker runs on all sizes)",
+               "model comparison of floyd_warshall only for n <= 64 (the verified checker runs on all sizes)",
                "G matrix diagonal is not an observable (left uninitialised by the library unless a self-loop writes it)"]
-WIP = True
 
 def plan(tier, seed, searching):
-    return [dict(hargs=["--seed", str(seed), "--tier", tier, "--scale", "8" if searching else "1"])]
+    scale = "1"
+    if searching:
+        scale = "8" if tier == "quick" else "3"
+    return [dict(hargs=["--seed", str(seed), "--tier", tier, "--scale", scale])]
 
 def only_args(hargs, k):
     return hargs + ["--only", str(k)]
